@@ -242,9 +242,14 @@ void error_handler (const char *err) {
         }
       else
         {
+          /* a catch() or safe apply completing inside the master's error handler pops an error
+           * context, which clears the error state: keep it for do_catch() */
+          int limit_state = get_error_state (ES_STACK_FULL | ES_MAX_EVAL_COST);
+
           in_mudlib_error_handler = 1;
           mudlib_error_handler (err, 1);
           in_mudlib_error_handler = 0;
+          set_error_state (limit_state);
         }
 #endif	/* LOG_CATCHES */
 
